@@ -875,6 +875,49 @@ def alias_records(ctx, add, base_in):
                         emit_inb(P, alias, L, het=het, sameF=bool(het % 2 == 0), cost=COST[P] * 2)
 
 
+def call_marginalize_many(inp, phi, xxs):
+    """sample, then marginalize the populations in.overs (1-based, IN THE ORDER LISTED, in the container in.overform)."""
+    call = call_inbreeding if inp['kind'] == 'inbreeding' else call_from_phi
+    axes = [a - 1 for a in inp['overs']]
+    form = inp.get('overform')
+    over = tuple(axes) if form == 'tuple' else np.array(axes) if form == 'array' else list(axes)
+    return call(inp, phi, xxs).marginalize(over, mask_corners=False)
+
+
+def marginal_order_records(ctx, add, base_in):
+    """Marginalising SEVERAL populations after sampling equals sampling the density with those populations integrated
+    out, whatever the order in which the caller lists them (deterministic, both tiers, 3-5 populations): every set of
+    populations is listed ascending, descending and rotated, as list / tuple / ndarray."""
+    rng = random.Random(ctx.seed + 1705)
+    turn = itertools.count()
+    plans = [('analytic', 3, [2, 1, 3], [3, 3, 4], [{1, 2}, {1, 3}, {2, 3}]),
+             ('direct', 3, [1, 3, 2], [4, 3, 3], [{1, 2}, {2, 3}]),
+             ('inbreeding', 3, [2, 3, 4], [3, 3, 3], [{1, 3}, {1, 2}]),
+             ('analytic', 4, [1, 2, 1, 2], [3, 3, 2, 3], [{1, 2}, {2, 4}, {1, 2, 3}, {1, 3, 4}]),
+             ('direct', 4, [2, 1, 1, 2], [3, 2, 3, 3], [{1, 4}, {2, 3, 4}]),
+             ('analytic', 5, [1, 1, 2, 1, 2], [3, 3, 2, 3, 2], [{1, 2}, {4, 5}, {1, 3, 5}, {1, 2, 3, 4}, {2, 3, 4, 5}])]
+    for kind, P, ns, lens, sets in plans:
+        g = {}
+        xxs = [g.setdefault(L, make_grid(rng, L, 'default' if L > 2 else 'uniform', '')) for L in lens]
+        phi = make_phi(rng, lens, xxs, 'uniform')
+        for S in sets:
+            asc = sorted(S)
+            orders = [asc, asc[::-1], asc[1:] + asc[:1]]
+            if len(asc) >= 3:
+                orders.append([asc[1], asc[0]] + asc[2:])          # neither monotone nor a rotation
+            for overs in orders:
+                k = next(turn)
+                inp = base_in(phi, ns, xxs, mc=False, force=(kind == 'direct'))
+                inp.update({'kind': kind, 'ms': ns, 'overs': overs, 'Fs': rats([0.2, 0.5, 0.7][:P]) if kind == 'inbreeding' else ['0'] * P,
+                            'ploidys': [2, 3, 2][:P] if kind == 'inbreeding' else [1] * P})
+                form = (None, 'tuple', 'array')[k % 3]
+                if form:
+                    inp['overform'] = form
+                left = [n + 1 for a, n in enumerate(ns, 1) if a not in S]
+                add('sample_marginalize', inp, observe(lambda: call_marginalize_many(inp, phi, xxs)),
+                    'Spectrum.from_phi[%s]+marginalize[%dD, several populations]' % (kind, P), 20 + 10 * int(np.prod(left)) * len(phi.ravel()) // 50)
+
+
 def balance(recs, bins=8):
     """Order the records so that the pipeline's contiguous batches carry similar estimated work."""
     order = sorted(range(len(recs)), key=lambda j: -float(recs[j]['_cost']))
@@ -975,6 +1018,8 @@ def what_of(rec, clause):
         txt += '; the SAME grid object is passed for the axes %s (in.alias = %s), ns=%s, het_ascertained=%s, force_direct=%s%s' % (
             [a for a in range(len(i['alias'])) if i['alias'].count(i['alias'][a]) > 1], i['alias'], i['ns'], HET[i['het']], i['force'],
             ', admix_props' if i['admix'] else '')
+    if 'overs' in i:
+        return txt + '; from_phi(ns=%s).marginalize(%s as %s) on a density of shape %s' % (i['ns'], [a - 1 for a in i['overs']], i.get('overform', 'list'), i['phi']['sh'])
     if 'nth' not in i:
         return txt
     calls = ', then '.join('ns=%s' % z for z in list(i['prior']) + [i['ns']])
@@ -998,6 +1043,8 @@ def rerun(rec):
     phi, xxs = from_record(inp)
     if 'nth' in inp:
         return dict(rec, out=run_reused(rec['op'], inp, phi, xxs))
+    if rec['op'] == 'sample_marginalize' and 'overs' in inp:
+        return dict(rec, out=observe(lambda: call_marginalize_many(inp, phi, xxs)))
     if rec['op'] == 'from_phi':
         rec = dict(rec, out=observe(lambda: call_from_phi(inp, phi, xxs)))
     elif rec['op'] == 'from_phi_inbreeding':
